@@ -1,7 +1,7 @@
 (* C19 — the model instantiated with the tables measured on the code under test (Generated.v) and the
    checkers evaluated by the correspondence run. *)
 From Coq Require Import String Ascii List Bool ZArith.
-Require Import V.Lib.PyStr V.Lib.JTree V.Dosini.Codec V.Dosini.Generated.
+Require Import V.Lib.PyStr V.Lib.JTree V.Dosini.Codec V.Dosini.Generated V.Dosini.Text.
 Import ListNotations.
 Open Scope string_scope.
 
@@ -29,8 +29,32 @@ Definition check_case (x : comp * option comp) : bool :=
    the loaded document: at the level of the instance files an option holding the empty list is absent *)
 Definition is_empty_list (o : string * val) : bool := match snd o with VList [] => true | _ => false end.
 Definition compress_c (c : comp) : comp := mkComp (filter (fun o => negb (is_empty_list o)) (opts c)) (vars c).
-Definition check_file_case (x : comp * option comp) : bool :=
-  match roundtrip_c (fst x), snd x with
+(* the section of a component in a stage file: the variables first, then the rendered options (comp_dict starts
+   as the variables and is updated with what the writers extract) *)
+Definition file_section (c : comp) : option ini :=
+  match traverse (dump_opt dump_table) (opts c) with
+  | Some l => Some (vars c ++ l)%list
+  | None => None
+  end.
+
+(* the instance-file round trip of one component: its section goes through the configparser text layer
+   (Text.v: written with add_section/set/write, read back from the text) and then through the reader *)
+Definition via_file (name : string) (c : comp) : option comp :=
+  match file_section c with
+  | Some i => match write_table [(name, i)] with
+              | Some txt => match read_text txt with
+                            | Some (_, t') => match lookup name t' with Some i' => parse_c i' | None => None end
+                            | None => None
+                            end
+              | None => None
+              end
+  | None => None
+  end.
+
+(* case = (name of the component, component handed to Dosini.dump, component in the loaded document) *)
+Definition check_file_case (x : string * comp * option comp) : bool :=
+  let '(name, c, o) := x in
+  match via_file name c, o with
   | Some c', Some o => comp_eqb (compress_c c') (compress_c o)
   | None, None => true
   | _, _ => false
